@@ -72,10 +72,9 @@ def check(an: Analysis) -> None:
     if not gens:
         # the wrapper may be a module-level (private) generator started through Context.run(G, ...)
         for c in [c for c in stream.own_nodes() if isinstance(c, ast.Call)]:
-            cands = [a for a in c.args if isinstance(a, ast.Name)] + ([c.func] if isinstance(c.func, ast.Name) else [])
+            cands = [a for a in c.args if isinstance(a, (ast.Name, ast.Attribute))] + ([c.func] if isinstance(c.func, ast.Name) else [])
             for a in cands:
-                q = prog.resolve_global(stream.module, a.id)
-                t = prog.functions.get(q or "")
+                t = _function_named(prog, stream, a)
                 if t is not None and t.is_generator() and t.module is stream.module and t not in gens:
                     gens.append(t)
                     passed = c.args[c.args.index(a) + 1 :] if a in c.args else list(c.args)
@@ -117,7 +116,7 @@ def check(an: Analysis) -> None:
     for c in runs:
         ob.inst(stream, c)
         a = c.args[0] if c.args else None
-        target = next((nf for nf in [*stream.nested, *gens] if isinstance(a, ast.Name) and nf.name == a.id), None)
+        target = next((nf for nf in stream.nested if isinstance(a, ast.Name) and nf.name == a.id), None) or (_function_named(prog, stream, a) if a is not None else None)
         if target is not None and (target.is_generator() or target.is_async):
             ob.fail(stream, c, "Context.run on a generator/coroutine function executes none of its body in the snapshot: the stream body observes the state current where it is *consumed*, not where it was created", construct="<snapshot>.run(<generator function>)")
     driven = [c for c in stream.all_nodes() if isinstance(c, ast.Call) and isinstance(c.func, ast.Attribute) and c.func.attr == "create_task" and any(k.arg == "context" for k in c.keywords)]
@@ -135,7 +134,13 @@ def check(an: Analysis) -> None:
         ob.inst(gen, lp)
         it = unwrap(lp.iter)
         gva, gkwa = (va, kwa) if nested_gen else vararg_names(gen)
-        if not (isinstance(it, ast.Call) and isinstance(it.func, ast.Name) and gen_origins(it.func) == {f"param:{src_param}"} and forwards_varargs(it, gva, gkwa)):
+        fwd = isinstance(it, ast.Call) and forwards_varargs(it, gva, gkwa)
+        if isinstance(it, ast.Call) and not fwd and not nested_gen:
+            # the collections travel as ordinary parameters of the moved generator: source(*<args of ctx.stream>, **<kwargs of ctx.stream>)
+            st_ = [a_ for a_ in it.args if isinstance(a_, ast.Starred)]
+            ds_ = [k for k in it.keywords if k.arg is None]
+            fwd = len(it.args) == 1 and len(st_) == 1 and len(it.keywords) == 1 and len(ds_) == 1 and gen_origins(st_[0].value) == {f"param:{va}"} and gen_origins(ds_[0].value) == {f"param:{kwa}"}
+        if not (isinstance(it, ast.Call) and isinstance(it.func, ast.Name) and gen_origins(it.func) == {f"param:{src_param}"} and fwd):
             ob.fail(gen, lp, "the wrapper does not iterate source(*args, **kwargs)")
         ys = [y for y in gen.own_nodes() if isinstance(y, ast.Yield)]
         inside = [y for y in ys if within(y, lp)]
@@ -202,11 +207,13 @@ def check(an: Analysis) -> None:
     for r in rets:
         ob.inst(stream, r)
         v = unwrap(r.value)
-        ok = isinstance(v, ast.Call) and ((v in runs and v.args and is_name(v.args[0], gen.name)) or is_name(v.func, gen.name))
+        ok = isinstance(v, ast.Call) and ((v in runs and v.args and (is_name(v.args[0], gen.name) or _function_named(prog, stream, v.args[0]) is gen)) or is_name(v.func, gen.name) or _function_named(prog, stream, v.func) is gen)
         if ok and not nested_gen:
-            # the varargs of ctx.stream must be forwarded to the module-level generator
+            # the varargs of ctx.stream must be forwarded to the moved generator (starred, or as two ordinary arguments - checked at the source call in C11.3)
             star = [a_ for a_ in v.args if isinstance(a_, ast.Starred)]
-            ok = len(star) == 1 and is_name(star[0].value, va or "") and any(k.arg is None and is_name(k.value, kwa or "") for k in v.keywords)
+            starred = len(star) == 1 and is_name(star[0].value, va or "") and any(k.arg is None and is_name(k.value, kwa or "") for k in v.keywords)
+            plain = any(is_name(x, va or "") for x in binding.values()) and any(is_name(x, kwa or "") for x in binding.values())
+            ok = starred or plain
         if not ok:
             ob.fail(stream, r, "ctx.stream does not return the wrapping generator")
     if not rets:
@@ -224,3 +231,15 @@ def _anc(n: ast.AST):
     from ..loader import ancestors
 
     return ancestors(n)
+
+
+def _function_named(prog, fi: FunctionInfo, e: ast.AST) -> FunctionInfo | None:
+    """The haiway function a bare reference (`name` / `Class.name` / `module.name`) denotes."""
+    if isinstance(e, ast.Name):
+        return prog.functions.get(prog.resolve_global(fi.module, e.id) or "")
+    if isinstance(e, ast.Attribute) and isinstance(e.value, ast.Name):
+        base = prog.resolve_global(fi.module, e.value.id)
+        if base is None and fi.cls is not None and e.value.id in ("cls", "self", fi.cls.name):
+            base = fi.cls.qualname
+        return prog.functions.get(f"{base}.{e.attr}") if base else None
+    return None
